@@ -71,6 +71,14 @@ func parseTimeZone(tz string) (*time.Location, error) {
 		return nil, fmt.Errorf("invalid timezone")
 	}
 
+	// the remaining four characters must be digits. Note that
+	// strconv.Atoi would also accept a (second) sign character.
+	for _, c := range tz[1:] {
+		if c < '0' || c > '9' {
+			return nil, fmt.Errorf("invalid timezone")
+		}
+	}
+
 	// take the first two digits as "HH"
 	hours, err := strconv.Atoi(tz[1:3])
 	if err != nil {
